@@ -40,6 +40,7 @@ fn main() {
         "C02" => c02::run(seed, n, replay, &mut out),
         "C29" | "C30" => c29::run(seed, n, replay, &mut out, a[1].as_str()),
         "C22" | "hcfg" | "hcfg-optimism" => c22::run(seed, n, replay, &mut out),
+        "C07" | "frame" => c07::run(seed, n, replay, &mut out),
         other => {
             eprintln!("unknown component {other}");
             std::process::exit(2);
